@@ -2,4 +2,4 @@ INIT Init
 NEXT Next
 CONSTANTS
   MaxLen = 3
-  NTexts = 6
+  NTexts = 5
